@@ -120,6 +120,16 @@ CLAIMED = {
         note='trusted: z3, engine models incl. f-string concatenation and sorted() on symbolic keys '
              '(replayed per path); acceptance of the first load is C03',
         ref='DESIGN.md section 7 C17'),
+    'C16': dict(
+        text='For schemas with handlers on the schema, keys, multikeys, sections and multisections (two depths), '
+             'enumerated texts and handler maps with two symbolic names (legal basic-keys: case variants, '
+             'collisions, unknown names) and enumerated None entries, z3 shows on every path that len(handler), '
+             'the sequence of calls, the delivered values (equal to, and the same objects as, the value-tree '
+             'values), None skipping and the all-or-nothing rule equal what the oracle derives from the schema '
+             'description: nested sections in closing order first, own items in schema order, schema handler last.',
+        note='trusted: z3, engine models (replayed per path), expected_entries in vf/harness/c16.py and '
+             'the conformance oracle; map names that are not legal basic-keys are outside the statement',
+        ref='DESIGN.md section 7 C16'),
 }
 
 NOT_YET = 'harness not built yet in this revision (see DESIGN.md section 7 for the plan)'
